@@ -80,25 +80,80 @@ type Step struct {
 // ErrStuck is returned when a resumed participant neither parks nor finishes (it blocked on a real lock).
 var ErrStuck = fmt.Errorf("sched: participant did not reach a yield point (blocked outside the hook)")
 
-// Run executes the participants. choose is called with the indices of live participants and the index of the
-// participant that ran last (-1 at the start) and returns the index (into parts) to resume.
+// BlockWait is how long a resumed participant may run without reaching a yield point before it is considered
+// blocked on a real lock held by a parked participant (it stays in flight and re-joins when it parks).
+var BlockWait = 2 * time.Millisecond
+
+// Run executes the participants. choose is called with the indices of runnable participants (live and not blocked
+// on a real lock) and the index of the participant that ran last (-1 at the start) and returns the index to resume.
+// A participant that blocks on a real mutex held by a parked participant does not deadlock the scheduler: it is
+// set aside as "in flight" and becomes runnable again once it reaches its next yield point.
 func Run(parts []*Part, choose func(live []int, last int, step int) int) ([]Step, error) {
 	var trace []Step
 	last := -1
+	inflight := map[int]bool{}
+	collect := func(w int, pt string) {
+		if pt == "" {
+			parts[w].done = true
+		}
+		delete(inflight, w)
+		trace = append(trace, Step{Who: w, Point: pt})
+	}
 	for step := 0; ; step++ {
-		var live []int
-		for i, p := range parts {
-			if !p.done {
-				live = append(live, i)
+		// participants that were blocked may have parked meanwhile
+		for w := range inflight {
+			select {
+			case pt := <-parts[w].parked:
+				collect(w, pt)
+				if pt != "" {
+					// it is parked at a yield point now: runnable again
+				}
+			default:
 			}
 		}
-		if len(live) == 0 {
+		var live []int
+		nlive := 0
+		for i, p := range parts {
+			if !p.done {
+				nlive++
+				if !inflight[i] {
+					live = append(live, i)
+				}
+			}
+		}
+		if nlive == 0 {
 			return trace, nil
+		}
+		if len(live) == 0 {
+			// everybody is in flight: wait for any of them
+			deadline := time.After(5 * time.Second)
+			got := false
+			for !got {
+				for w := range inflight {
+					select {
+					case pt := <-parts[w].parked:
+						collect(w, pt)
+						got = true
+					default:
+					}
+					if got {
+						break
+					}
+				}
+				if !got {
+					select {
+					case <-deadline:
+						return trace, ErrStuck
+					case <-time.After(200 * time.Microsecond):
+					}
+				}
+			}
+			continue
 		}
 		w := choose(live, last, step)
 		p := parts[w]
-		if p.done {
-			return trace, fmt.Errorf("sched: chose a finished participant")
+		if p.done || inflight[w] {
+			return trace, fmt.Errorf("sched: chose a participant that is not runnable")
 		}
 		p.resume <- struct{}{}
 		select {
@@ -107,8 +162,9 @@ func Run(parts []*Part, choose func(live []int, last int, step int) int) ([]Step
 				p.done = true
 			}
 			trace = append(trace, Step{Who: w, Point: pt, Live: len(live)})
-		case <-time.After(5 * time.Second):
-			return trace, ErrStuck
+		case <-time.After(BlockWait):
+			inflight[w] = true
+			trace = append(trace, Step{Who: w, Point: "(blocked on a lock)", Live: len(live)})
 		}
 		last = w
 	}
